@@ -47,6 +47,8 @@ type World struct {
 	Storage nodeenrollment.Storage
 	SW      wrapping.Wrapper
 	RW      wrapping.Wrapper
+	// NilOpt: the application builds its option list conditionally and a nil entry comes first (nil options are skipped)
+	NilOpt bool
 }
 
 func newAead(r *kernel.Run, keyID string) wrapping.Wrapper {
@@ -142,6 +144,9 @@ func (w *World) NewCtx() {
 // Opts returns the options this side passes to the library.
 func (w *World) Opts(extra ...nodeenrollment.Option) []nodeenrollment.Option {
 	var o []nodeenrollment.Option
+	if w.NilOpt {
+		o = append(o, nil)
+	}
 	if w.SW != nil {
 		o = append(o, nodeenrollment.WithStorageWrapper(w.SW))
 	}
